@@ -29,7 +29,8 @@ def variants(rng, base, scale):
     small = [0, 1, 2, 3, 4, 5, 6, 7, 12, 13]
     big = [int(20 * scale), int(60 * scale), int(150 * scale)]
     for _ in range(rng.randint(0, 5)):
-        kind = rng.choice(["skip", "alt5", "alt3", "retain", "trunc_l", "trunc_r", "ext_l", "ext_r", "mono", "sub", "novel_exon"])
+        kind = rng.choice(["skip", "alt5", "alt3", "retain", "trunc_l", "trunc_r", "ext_l", "ext_r", "mono", "sub", "novel_exon",
+                           "micro_exon", "one_intron"])
         ex = list(base)
         if kind == "skip" and n >= 3:
             i = rng.randint(1, n - 2)
@@ -74,6 +75,25 @@ def variants(rng, base, scale):
                 s = rng.randint(a + 2, b - 4)
                 e = rng.randint(s, min(b - 2, s + int(100 * scale)))
                 ex = ex[:i + 1] + [(s, e)] + ex[i + 1:]
+        elif kind == "micro_exon" and n >= 2:
+            # an extra exon of 1..7 bases (shorter than / around delta) inside an intron, or an inner exon shrunk to a micro-exon
+            i = rng.randint(0, n - 2)
+            a, b = ex[i][1] + 1, ex[i + 1][0] - 1
+            ln = rng.randint(1, 7)
+            if rng.random() < 0.6 and b - a > ln + 4:
+                s = rng.randint(a + 2, b - ln - 1)
+                ex = ex[:i + 1] + [(s, s + ln - 1)] + ex[i + 1:]
+            elif n >= 3:
+                j = rng.randint(1, n - 2)
+                ex[j] = (ex[j][0], min(ex[j][1], ex[j][0] + ln - 1))
+        elif kind == "one_intron" and n >= 3:
+            # shares every intron of the base chain but one: one donor or acceptor moved by 1..delta-ish or far
+            i = rng.randint(0, n - 2)
+            d = rng.choice([1, 2, 3, 4, 5, 6, 7, 12, 13, int(40 * scale) + 14]) * rng.choice([-1, 1])
+            if rng.random() < 0.5:
+                ex[i] = (ex[i][0], ex[i][1] + d)
+            else:
+                ex[i + 1] = (ex[i + 1][0] + d, ex[i + 1][1])
         if ok(ex) and ex[0][0] >= 1:
             out.append(ex)
     return out
@@ -143,6 +163,86 @@ def follow_read(rng, exons, delta, truncate=True, jitter=True, end_slack=0):
     ex[-1][1] -= rng.randint(-end_slack, max(0, l1 // 2))
     ex = [tuple(e) for e in ex]
     return ex if valid_blocks(ex) else None
+
+
+def follow_border_read(rng, exons, meo):
+    """EXACT sub-chain of the isoform whose two ends sit at / next to exon borders or make the first / last block
+    exactly as long as the thresholds of the forward clause (minimal_exon_overlap, 2*minimal_exon_overlap - 1) +- 1"""
+    ex = [list(e) for e in exons]
+    n = len(ex)
+    i = rng.randint(0, n - 1)
+    j = rng.randint(i, n - 1)
+    ex = ex[i:j + 1]
+    lens = [1, 2, meo - 1, meo, meo + 1, 2 * meo - 2, 2 * meo - 1, 2 * meo]
+
+    def pick(lo, hi, from_end):
+        # a position in [lo, hi]: a border, next to a border, or a threshold length away from the other border
+        c = [lo, lo + 1, hi, hi - 1, (lo + hi) // 2]
+        c += [(hi - ln + 1) if from_end else (lo + ln - 1) for ln in lens if ln >= 1]
+        c = [x for x in c if lo <= x <= hi]
+        return rng.choice(c)
+
+    if len(ex) == 1:
+        a = pick(ex[0][0], ex[0][1], True)
+        b = pick(a, ex[0][1], False) if rng.random() < 0.7 else ex[0][1]
+        ex[0] = [a, b]
+    else:
+        ex[0][0] = pick(ex[0][0], ex[0][1], True)
+        ex[-1][1] = pick(ex[-1][0], ex[-1][1], False)
+    ex = [tuple(e) for e in ex]
+    return ex if valid_blocks(ex) else None
+
+
+def follows_exact(exons, blocks):
+    """Python form of Lean `FollowsExact`: offset a such that block j lies in exon a + j, sharing its start unless j = 0
+    and its end unless it is the last block; returns a or None"""
+    m = len(blocks)
+    for a in range(0, len(exons) - m + 1):
+        ok = True
+        for j, b in enumerate(blocks):
+            e = exons[a + j]
+            if not (e[0] <= b[0] and b[1] <= e[1]):
+                ok = False
+            if j > 0 and b[0] != e[0]:
+                ok = False
+            if j + 1 < m and b[1] != e[1]:
+                ok = False
+            if not ok:
+                break
+        if ok:
+            return a
+    return None
+
+
+def follow_hyp(isoforms, params, ti, blocks, polya):
+    """Python form of Lean `FollowHyp` (Lemmas/C01Follow.lean), position only"""
+    def gapped(ex):
+        return bool(ex) and all(a <= b for a, b in ex) and all(ex[k][1] + 1 < ex[k + 1][0] for k in range(len(ex) - 1))
+
+    def sd(ex):
+        return bool(ex) and all(a <= b for a, b in ex) and all(ex[k][1] < ex[k + 1][0] for k in range(len(ex) - 1))
+
+    d = params.delta
+    if d < 0 or params.min_abs_exon_overlap < 0:
+        return False
+    if not all(sd(t["exons"]) and t["exons"][0][0] >= 0 for t in isoforms):
+        return False
+    T = isoforms[ti]["exons"]
+    if not gapped(T) or not gapped(blocks):
+        return False
+    for t in isoforms:
+        if any(b - a < d for a, b in introns_of(t["exons"])):
+            return False
+    if follows_exact(T, blocks) is None:
+        return False
+    ri = introns_of(blocks)
+    if any(ri[k][1] + d >= ri[k + 1][0] for k in range(len(ri) - 1)):
+        return False
+    ln = blocks[0][1] - blocks[0][0] + 1
+    meo = params.minimal_exon_overlap
+    if ln < meo or (len(blocks) == 1 and ln < 2 * meo - 1):
+        return False
+    return polya[0] == -1 and polya[1] == -1
 
 
 def far_read(rng, exons, scale=1.0):
